@@ -357,6 +357,7 @@ package vnet
 //@   modifies randLast, clock, tLook, chSrc, chSrcIP, chStamp, lastPushed, fwdN, fwdNIC, fwdChunk, fwdTick, fwdIdx, fwdItem, upN, upRouter, upChunk, rtIdx, rtItem, rtHanded, rtEntered, rtFrom, rtTo, rtHandN, rtBlocked, rtRefused
 //@   ensures [noerror] err != nil ==> chNet[rtItem] != "udp"
 //@   ensures [popped] r.queue.head >= old(r.queue.head)
+//@   ensures [wake] err == nil && d <= 0 ==> r.queue.head == r.queue.tail
 //@   ensures [count] (fwdN - old(fwdN)) + (upN - old(upN)) <= r.queue.head - old(r.queue.head)
 //@   ensures [due] forall k mathint :: {fwdNIC[k]} old(fwdN) <= k && k < fwdN ==> chStamp[fwdChunk[k]] + r.minDelay <= fwdTick[k] && fwdTick[k] <= clock && old(clock) <= fwdTick[k]
 //@   ensures [fifo] forall k mathint :: {fwdNIC[k]} old(fwdN) <= k && k < fwdN ==> old(r.queue.head) <= fwdIdx[k] && fwdIdx[k] < r.queue.head &&
